@@ -130,7 +130,15 @@ func evalDo(
 			keyLen := len(doStmt.Fn.Args)
 			key := make([]ast.Constant, keyLen)
 			for i, v := range doStmt.Fn.Args {
-				key[i] = subst.Get(v.(ast.Variable)).(ast.Constant)
+				keyVar, ok := v.(ast.Variable)
+				if !ok {
+					return fmt.Errorf("fn:group_by expects variables, got %v", v)
+				}
+				c, ok := subst.Get(keyVar).(ast.Constant)
+				if !ok {
+					return fmt.Errorf("fn:group_by: variable %v has no value", keyVar)
+				}
+				key[i] = c
 			}
 			h := groupKeyString(key)
 			group, ok := keyToGroup[h]
